@@ -10,6 +10,7 @@ import (
 	"encoding/json"
 	"fmt"
 	"hash/fnv"
+	"io"
 	"io/ioutil"
 	"math/rand"
 	"os"
@@ -207,6 +208,7 @@ func vNewRunner(sc *vScenario) (*vRunner, error) {
 		vms: map[cloud.InstanceID]*vVMInfo{}, ctrs: map[string]*vCtrTrack{},
 		decisions: map[string]*vDecision{}, inherited: map[string]map[vProcRef]bool{},
 		heldNow: map[cloud.InstanceID]bool{},
+		inflight: map[string]int{}, seenDuringStart: map[string]bool{}, hidCounted: map[string]bool{}, forceList: map[string]bool{},
 		rng:     rand.New(rand.NewSource(sc.Seed ^ 0x5eed)),
 		deadGen: -1, curGen: -1,
 	}
@@ -250,6 +252,34 @@ func vNewRunner(sc *vScenario) (*vRunner, error) {
 	rn.sisWrap = is.(*test.StubInstanceSet)
 	rn.m = m
 	return rn, nil
+}
+
+// vExecutor is the pool's executor (real sshexecutor) plus a note of which
+// "crunch-run --detach" calls have not returned yet.
+type vExecutor struct {
+	*sshexecutor.Executor
+	m  *vMonitor
+	vm string
+}
+
+func (e *vExecutor) Execute(env map[string]string, cmd string, stdin io.Reader) ([]byte, []byte, error) {
+	if strings.Contains(cmd, "crunch-run --detach ") {
+		key := e.vm + "/" + vUUIDRe.FindString(cmd)
+		m := e.m
+		m.mu.Lock()
+		m.inflight[key]++
+		m.mu.Unlock()
+		defer func() {
+			m.mu.Lock()
+			if m.inflight[key]--; m.inflight[key] <= 0 {
+				delete(m.inflight, key)
+				delete(m.seenDuringStart, key)
+				delete(m.hidCounted, key)
+			}
+			m.mu.Unlock()
+		}()
+	}
+	return e.Executor.Execute(env, cmd, stdin)
 }
 
 type vGenDriver struct {
@@ -319,7 +349,7 @@ func (rn *vRunner) startGen() error {
 		rn.exrMu.Lock()
 		rn.executor = append(rn.executor, exr)
 		rn.exrMu.Unlock()
-		return exr
+		return &vExecutor{Executor: exr, m: m, vm: string(inst.ID())}
 	}
 	wp := worker.NewPool(disp.logger, disp.ArvClient, disp.Registry, disp.InstanceSetID, disp.instanceSet, newExecutor, disp.sshKey.PublicKey(), disp.Cluster)
 	disp.pool = &vPool{pool: wp, m: m, gen: gen}
